@@ -89,6 +89,18 @@ def parseOp (line : String) : Option Op :=
       let p ← stripPrefix "panic=" pan
       let pa ← if p == "-" then some none else (p.toNat?).map some
       some (.iterCtor (← d.toNat?) w hd ⟨ls, hs, its, pa⟩)
+  -- a non-fused source: `late=` is what it would yield if polled again after its first `None`; that is not part of the
+  -- input sequence, so the model's iterator is the one without it
+  | ["iter", d, which, h, lens, hints, items, pan, late] => do
+      let w ← parseIterCtor which
+      let hd ← if h == "-" then some none else (parseItem h).map some
+      let ls ← parseNats (← stripPrefix "lens=" lens)
+      let hs ← parseHints (← stripPrefix "hints=" hints)
+      let its ← parseItems (← stripPrefix "items=" items)
+      let p ← stripPrefix "panic=" pan
+      let pa ← if p == "-" then some none else (p.toNat?).map some
+      let _ ← parseItems (← stripPrefix "late=" late)
+      some (.iterCtor (← d.toNat?) w hd ⟨ls, hs, its, pa⟩)
   | ["clone", d, s] => do some (.clone (← d.toNat?) (← s.toNat?))
   | ["drop", s] => do some (.drop (← s.toNat?))
   | ["conv", s, c] => do some (.conv (← s.toNat?) (← parseConv c))
